@@ -41,6 +41,8 @@ DECLS = {
     "package-bare": (None, "p"),  # a package without any declaration: which level a name resolves at depends on the call's bindings only
     # names declared as plain leaves that bindings later reach through (r.kind bound under a leaf-declared r), next to a dotted declaration
     "leaf": ({"r": "MapType", "n": "IntType", "a.b": "IntType"}, None),
+    # declared names of three and four segments next to their shorter prefixes: per-call copies of the declaration tree have to reach every level
+    "deep": ({"n": "IntType", "a.b": "IntType", "a.b.c": "IntType", "a.b.d": "IntType", "org.unit.team.cost": "IntType"}, None),
 }
 SOURCES = [
     ("n + 1", ["plain"]), ("s + '!'", ["plain"]), ("[1, 2, 3].map(x, x * n)", ["plain"]), ("n > 1 ? 'big' : 'small'", ["plain"]), ("n > 0 || 1 / n > 0", ["plain", "failing"]),
@@ -61,6 +63,8 @@ SOURCES = [
     ("'abc'.contains('zz') ? n : 0 - n", ["plain", "override"], "ovr"), ("[1, 2].size() + size('ab') + n", ["plain", "override"], "ovr"), ("[1, 2].size() + size('ab') + n", ["plain"], "ovr"),
     # a dotted binding that passes through a name declared (or bound earlier) as a plain value, then the plain binding, and back
     ("r.kind", ["leafdot"], "leaf"), ("r.kind + '/' + string(n)", ["leafdot"], "leaf"), ("has(r.kind) ? r.kind : 'none'", ["leafdot"], "leaf"), ("a.b + n", ["leafdot"], "leaf"),
+    # declared names of three or four segments; the bindings give them, omit them, give them again
+    ("a.b.c", ["deep"], "deep"), ("a.b.c + a.b.d", ["deep"], "deep"), ("org.unit.team.cost * n", ["deep"], "deep"), ("has(a.b.c) ? a.b.c : -1", ["deep"], "deep"),
     # operands that print alike (str/repr drop sub-second parts) but differ, and the same comparison with the operands swapped
     ("duration('1s') == duration('1s')", ["empty"], "reprs"), ("duration('1500ms') == duration('1s')", ["empty"], "reprs"), ("duration('1500ms') > duration('1s')", ["empty"], "reprs"),
     ("duration('1s') > duration('1500ms')", ["empty"], "reprs"), ("timestamp('2020-01-01T00:00:00Z') == timestamp('2020-01-01T00:00:00Z')", ["empty"], "reprs"),
@@ -72,6 +76,10 @@ BINDINGS = {
     "plain": [{"n": ("int", 1), "s": ("string", "a")}, {"n": ("int", 2), "s": ("string", "b")}, {"n": ("int", 5), "s": ("string", "")}, {"n": ("int", 7)}],
     "failing": [{"n": ("int", 0), "s": ("string", "z")}, {"s": ("string", "only-s")}],
     "dotted": [{"a.b": ("int", 1), "a.c": ("int", 10)}, {"a.b": ("int", 2), "a.c": ("int", 20)}, {"a.b": ("int", 3)}, {}],
+    "deep": [
+        {"n": ("int", 3), "a.b.c": ("int", 5), "a.b.d": ("int", 6), "org.unit.team.cost": ("int", 7)}, {"n": ("int", 4)}, {"n": ("int", 2), "a.b.c": ("int", 11), "org.unit.team.cost": ("int", 13)},
+        {"n": ("int", 4), "a.b.d": ("int", 1)}, {"a.b": ("map", ((("string", "c"), ("int", 21)), (("string", "d"), ("int", 22)))), "n": ("int", 1)}, {},
+    ],
     "nested": [{"m": ("map", ((("string", "k"), ("int", 4)),)), "n": ("int", 1)}, {"m": ("map", ()), "n": ("int", 2)}, {"m": ("map", ((("string", "k"), ("int", 9)), (("string", "j"), ("int", 1)))), "n": ("int", 3)}],
     "nested-zero": [{"m": ("map", ((("string", "k"), ("int", 0)),)), "n": ("int", 1)}, {"m": ("map", ((("string", "k"), ("int", 0)), (("string", "j"), ("int", 0)))), "n": ("int", 2)}, {}],
     "package": [{"p.x": ("int", 11)}, {"x": ("int", 12)}, {"p.x": ("int", 13), "x": ("int", 14)}, {}],
@@ -255,7 +263,7 @@ def host_flag(kinds):
     return "override" if "override" in kinds else ("host" in kinds)
 
 
-AFFINITY = {"leaf": "leafdot", "dotted": "dotted", "package": "package", "package-bare": "package", "simple": "plain"}
+AFFINITY = {"deep": "deep", "leaf": "leafdot", "dotted": "dotted", "package": "package", "package-bare": "package", "simple": "plain"}
 
 
 def pick_source(rnd, declkind, runner):
@@ -331,8 +339,8 @@ def systematic(acc, zy, rnd, ctx):
             eis = [h.op_env(r, d) for r, d in combo]
             for ei in eis:
                 dk = h.envs[ei][2]
-                src = {"none": "[1, 2].map(x, x + 1)", "simple": "n + 1", "dotted": "a.b", "package": "x + 1", "package-bare": "x + 1", "leaf": "r.kind"}[dk]
-                bk = {"none": "empty", "simple": "plain", "dotted": "dotted", "package": "package", "package-bare": "package", "leaf": "leafdot"}[dk]
+                src = {"none": "[1, 2].map(x, x + 1)", "simple": "n + 1", "dotted": "a.b", "package": "x + 1", "package-bare": "x + 1", "leaf": "r.kind", "deep": "a.b.c + org.unit.team.cost"}[dk]
+                bk = {"none": "empty", "simple": "plain", "dotted": "dotted", "package": "package", "package-bare": "package", "leaf": "leafdot", "deep": "deep"}[dk]
                 pi = h.op_program(ei, src, False)
                 if pi is not None:
                     h.op_evaluate(pi, dict(BINDINGS[bk][0]))
@@ -371,6 +379,20 @@ def systematic(acc, zy, rnd, ctx):
                     for b in (BINDINGS["nested"][0], BINDINGS["nested-zero"][0], {}, BINDINGS["nested"][1], BINDINGS["nested-zero"][1], {"n": ("int", 1)}, BINDINGS["nested"][2]):
                         h.acc.hook("evaluation-after-a-failure")
                         h.op_evaluate(pi, dict(b))
+    # one program per deep source, every deep activation in order and in reverse (a value given for a 3- or 4-segment name, then omitted)
+    for r in "IC":
+        for src in [e[0] for e in SOURCES if len(e) > 2 and e[2] == "deep"]:
+            scen += 1
+            if not ctx.mine(scen):
+                continue
+            h = History(acc, zy, rnd)
+            acc.hook("history")
+            ei = h.op_env(r, "deep")
+            pi = h.op_program(ei, src, False)
+            if pi is not None:
+                for b in BINDINGS["deep"] + BINDINGS["deep"][::-1]:
+                    h.acc.hook("deep-name-given-then-omitted")
+                    h.op_evaluate(pi, dict(b))
     acc.exhaustive.append("all ordered pairs of (runner, declaration kind) environment creations" + (" and all triples" if ctx.thorough else " and a sample of triples"))
 
 
